@@ -286,10 +286,40 @@ func runReplay(prop, path string) int {
 		fmt.Fprintln(os.Stderr, err)
 		return 2
 	}
-	if rf.Violation == nil || rf.Violation.Case == nil {
-		fmt.Println("replay file has no case (race reports are replayed by re-running the check)")
-		fmt.Println(rf.Log)
-		return 2
+	if rf.Kind == "race" || rf.Violation == nil || rf.Violation.Case == nil {
+		// a race report has no single case: a schedule cannot be replayed, the check is re-run
+		fmt.Println("this replay file records a race-detector report; schedules cannot be replayed, re-running the quick tier of the check instead")
+		fmt.Println(clip(rf.Log, 1500))
+		return runDriver(prop, "quick")
+	}
+	if rf.Kind == "crash" {
+		// the case killed its worker (fatal error / CPU limit): replay it in a child process
+		p := getPaths(prop)
+		_ = os.MkdirAll(p.work, 0o755)
+		cf := filepath.Join(p.work, "replay.crash")
+		payload := rf.Violation.Case.appendBinary(nil)
+		buf := make([]byte, 8+len(payload))
+		binary.LittleEndian.PutUint64(buf[:8], uint64(len(payload)))
+		copy(buf[8:], payload)
+		if err := os.WriteFile(cf, buf, 0o644); err != nil {
+			return brokenExit(prop, err.Error())
+		}
+		self, _ := os.Executable()
+		fmt.Printf("replaying %s in a child process: %s\n", prop, rf.Violation.Case.Brief())
+		out, err := exec.Command(self, "single", prop, cf).CombinedOutput()
+		os.Remove(cf)
+		ee, isExit := err.(*exec.ExitError)
+		if err == nil || (isExit && ee.ExitCode() == 1 && !strings.Contains(string(out), "fatal error")) {
+			fmt.Println("the case returns normally on the current tree")
+			if isExit {
+				fmt.Printf("VIOLATION property=%s replay=%s\n", prop, path)
+				return 1
+			}
+			return 0
+		}
+		fmt.Println(tail(string(out), 2000))
+		fmt.Printf("VIOLATION property=%s replay=%s\n", prop, path)
+		return 1
 	}
 	p := getPaths(prop)
 	kf, err := LoadKnownFindings(p.known)
